@@ -31,9 +31,16 @@ def _root(body, l, depth=0):
     return l, neg
 
 
+class _StdOnly:
+    """Stand-in for a Program when only std enums (Result / Option / ControlFlow) need decoding."""
+    enums = {}
+    structs = {}
+
+
 class Store:
-    def __init__(self, body):
+    def __init__(self, body, prog=None):
         self.body = body
+        self.prog = prog or _StdOnly()
         self.flags = set()
         self.colls = set()
         for l, loc in enumerate(body.locals):
@@ -67,9 +74,24 @@ class Store:
         st = dict(st)
         blk = self.body.blocks[b]
         for s in blk["stmts"]:
-            if "pl" not in s or s["pl"]["p"]:
+            if "pl" not in s:
+                continue
+            if s["pl"]["p"]:
+                # a write through a projection invalidates what is known about the variant of the root
+                st.pop(("var", s["pl"]["l"]), None)
                 continue
             l = s["pl"]["l"]
+            rv = s["rv"]
+            # variant tags: which enum variant a local holds
+            if rv["k"] == "agg" and rv.get("agg") == "adt" and rv.get("variant"):
+                st[("var", l)] = rv["variant"]
+            elif rv["k"] == "use" and op_local(rv["o"]) is not None and not rv["o"]["pl"]["p"] and ("var", op_local(rv["o"])) in st:
+                st[("var", l)] = st[("var", op_local(rv["o"]))]
+            elif rv["k"] == "discr" and not rv["pl"]["p"] and ("var", rv["pl"]["l"]) in st:
+                st[("discr", l)] = st[("var", rv["pl"]["l"])]
+            else:
+                st.pop(("var", l), None)
+                st.pop(("discr", l), None)
             if l in self.flags and s["rv"]["k"] == "use":
                 o = s["rv"]["o"]
                 if o.get("k") == "const":
@@ -81,6 +103,32 @@ class Store:
                     else:
                         st.pop(("flag", l), None)
         t = blk["term"]
+        if t and t["k"] == "call" and t.get("dest") is not None and not t["dest"]["p"]:
+            nm = t.get("callee") or ""
+            dl_ = t["dest"]["l"]
+            a0 = op_local(t["args"][0]) if t.get("args") and t["args"][0].get("pl") and not t["args"][0]["pl"]["p"] else None
+            tag = st.get(("var", a0)) if a0 is not None else None
+            new = None
+            dty = self.body.local_ty(dl_) or ""
+            if nm.endswith("Try::branch") and tag in ("Ok", "Some"):
+                new = "Continue"
+            elif nm.endswith("Try::branch") and tag in ("Err", "None"):
+                new = "Break"
+            elif nm.endswith("FromResidual::from_residual"):
+                new = "Err" if dty.startswith("std::result::Result") else ("None" if dty.startswith("std::option::Option") else None)
+            elif core.re.search(r"Result::<T, E>::(map_err|map|or_else|and_then)$", nm) and tag in ("Ok", "Err"):
+                new = tag if not nm.endswith(("or_else", "and_then")) else None
+            elif core.re.search(r"Option::<T>::(map|filter)$", nm) and tag == "None":
+                new = "None"
+            elif nm.endswith("Result::<T, E>::ok") and tag in ("Ok", "Err"):
+                new = "Some" if tag == "Ok" else "None"
+            elif core.re.search(r"Option::<T>::(ok_or|ok_or_else)$", nm) and tag in ("Some", "None"):
+                new = "Ok" if tag == "Some" else "Err"
+            if new is not None:
+                st[("var", dl_)] = new
+            else:
+                st.pop(("var", dl_), None)
+            st.pop(("discr", dl_), None)
         if t and t["k"] == "call":
             name = t.get("callee") or ""
             dest = t["dest"]["l"]
@@ -103,6 +151,14 @@ class Store:
         body = self.body
         t = body.term(b)
         succs = body.succs(b)
+        if t and t["k"] == "switch" and t.get("discr_ty") != "bool":
+            dl0 = op_local(t["discr"])
+            name = st.get(("discr", dl0)) if dl0 is not None else None
+            if name is not None:
+                info = core.switch_info(self.prog, body, b)
+                if info and info.get("kind") == "enum" and name in info["edges"]:
+                    return [info["edges"][name]]
+            return succs
         if not t or t["k"] != "switch" or t.get("discr_ty") != "bool":
             return succs
         dl = op_local(t["discr"])
@@ -167,10 +223,10 @@ def reach(body, starts, init=None, removed_nodes=(), removed_edges=(), reset_at=
     return blocks, parent
 
 
-def must_pass(body, from_blocks, to_blocks, through_nodes=(), through_edges=(), init=None, after_from=True):
+def must_pass(body, from_blocks, to_blocks, through_nodes=(), through_edges=(), init=None, after_from=True, prog=None):
     """Like core.must_pass but on the product graph. The store at a from-site is `init` after executing the
     from block's own transfer. Returns None or a witness list of blocks."""
-    store = Store(body)
+    store = Store(body, prog)
     starts = []
     through_nodes = set(through_nodes)
     for f in from_blocks:
